@@ -25,13 +25,15 @@ Registered == {"alg", "jku", "jwk", "kid", "x5u", "x5c", "x5t", "x5t#S256", "typ
 Implemented == {"b64"}
 
 \* a header: present?, alg?, b64, crit, kid?, custom x-c?, custom exp?
-Header == [present : BOOLEAN, alg : BOOLEAN, b64 : B64Vals, crit : CritVals, kid : BOOLEAN, xc : BOOLEAN, exp : BOOLEAN]
-Empty(h) == ~h.alg /\ h.b64 = Absent /\ h.crit = <<Absent>> /\ ~h.kid /\ ~h.xc /\ ~h.exp
-WellFormed(h) == h.present \/ Empty(h)
+\* xa: a second custom parameter ("a-trace", sorting before "x-c"), only explored next to x-c
+Header == [present : BOOLEAN, alg : BOOLEAN, b64 : B64Vals, crit : CritVals, kid : BOOLEAN, xc : BOOLEAN, xa : BOOLEAN, exp : BOOLEAN]
+Empty(h) == ~h.alg /\ h.b64 = Absent /\ h.crit = <<Absent>> /\ ~h.kid /\ ~h.xc /\ ~h.xa /\ ~h.exp
+WellFormed(h) == (h.present \/ Empty(h)) /\ (h.xa => h.xc)
 
 HasCrit(h) == h.crit # <<Absent>>
 Names(h) == (IF h.alg THEN {"alg"} ELSE {}) \cup (IF h.b64 # Absent THEN {"b64"} ELSE {}) \cup (IF HasCrit(h) THEN {"crit"} ELSE {})
-            \cup (IF h.kid THEN {"kid"} ELSE {}) \cup (IF h.xc THEN {"x-c"} ELSE {}) \cup (IF h.exp THEN {"exp"} ELSE {})
+            \cup (IF h.kid THEN {"kid"} ELSE {}) \cup (IF h.xc THEN {"x-c"} ELSE {}) \cup (IF h.xa THEN {"a-trace"} ELSE {})
+            \cup (IF h.exp THEN {"exp"} ELSE {})
 CritNames(h) == IF HasCrit(h) THEN {h.crit[i] : i \in 1..Len(h.crit)} ELSE {}
 
 Violations(p, u, shared) ==
@@ -52,6 +54,8 @@ Rows == {r \in [kind : {"headers"}, p : Header, u : Header, shared : SharedNames
             \* a shared registered name is explored on the slice of header pairs that are otherwise plain
             /\ (r.shared # "none" => (r.p.present /\ r.u.present /\ r.p.crit \in {<<Absent>>, <<"b64">>} /\ r.u.crit = <<Absent>>
                                        /\ ~r.p.xc /\ ~r.u.xc /\ ~r.p.exp /\ r.u.b64 = Absent))
+            \* the second custom name is explored on header pairs without crit / b64 complications
+            /\ ((r.p.xa \/ r.u.xa) => (r.p.crit = <<Absent>> /\ r.u.crit = <<Absent>> /\ r.p.b64 = Absent /\ r.u.b64 = Absent /\ ~r.p.exp))
             \* the unprotected header only needs the shapes that matter: any crit is already a violation
             /\ r.u.crit \in {<<Absent>>, <<"b64">>, <<>>} /\ ~r.u.exp}
 
